@@ -32,17 +32,63 @@ type c07Plan struct {
 	Gate    bool      `json:"gate"` // one extra request parked after the pause gate while the first pause is issued (known-finding shape)
 }
 
+func c07GenReq(t *rapid.T, at int) c07Step {
+	return c07Step{AtMs: at, Op: "req", Kind: rapid.SampledFrom([]string{"plain", "plain", "cookie", "cookie", "post", "health-get", "health-post", "health-lookalike"}).Draw(t, "kind")}
+}
+
 func c07Gen(t *rapid.T) c07Plan {
 	p := c07Plan{Targets: rapid.IntRange(1, 3).Draw(t, "targets")}
-	n := rapid.IntRange(3, 16).Draw(t, "nsteps")
 	at := 0
-	for i := 0; i < n; i++ {
+	gap := func() int {
 		at += rapid.SampledFrom([]int{0, 0, 1, 10, 99, 100, 101, 400}).Draw(t, "gap")
-		st := c07Step{AtMs: at}
+		return at
+	}
+	if rapid.Bool().Draw(t, "structured") {
+		// the shape the statement is about: (rollout in place?) -> pause -> requests are held -> the service changes
+		// while they wait -> resume / stop / nothing -> more requests
+		if rapid.Bool().Draw(t, "rollout-first") {
+			p.Steps = append(p.Steps, c07Step{AtMs: gap(), Op: "rollout-deploy"})
+			if rapid.Bool().Draw(t, "split-first") {
+				p.Steps = append(p.Steps, c07Step{AtMs: gap(), Op: "rollout-set"})
+			}
+		}
+		rounds := rapid.IntRange(1, 2).Draw(t, "rounds")
+		for r := 0; r < rounds; r++ {
+			p.Steps = append(p.Steps, c07Step{AtMs: gap(), Op: "pause", MaxPauseMs: rapid.SampledFrom([]int{100, 101, 500, 5000}).Draw(t, "max-pause")})
+			for i, n := 0, rapid.IntRange(1, 4).Draw(t, "held"); i < n; i++ {
+				p.Steps = append(p.Steps, c07GenReq(t, gap()))
+			}
+			for i, n := 0, rapid.IntRange(0, 3).Draw(t, "changes"); i < n; i++ {
+				op := rapid.SampledFrom([]string{"rollout-deploy", "rollout-set", "rollout-stop", "redeploy", "pause", "req"}).Draw(t, "change")
+				st := c07Step{AtMs: gap(), Op: op}
+				switch op {
+				case "pause":
+					st.MaxPauseMs = rapid.SampledFrom([]int{1, 100, 500, 5000}).Draw(t, "max-pause2")
+				case "req":
+					st = c07GenReq(t, st.AtMs)
+				}
+				p.Steps = append(p.Steps, st)
+			}
+			switch rapid.IntRange(0, 3).Draw(t, "release") {
+			case 0, 1:
+				p.Steps = append(p.Steps, c07Step{AtMs: gap(), Op: "resume"})
+			case 2:
+				p.Steps = append(p.Steps, c07Step{AtMs: gap(), Op: "stop", Msg: rapid.SampledFrom([]string{"", "maintenance-A", "maintenance-B"}).Draw(t, "msg")})
+			}
+			for i, n := 0, rapid.IntRange(0, 2).Draw(t, "after"); i < n; i++ {
+				p.Steps = append(p.Steps, c07GenReq(t, gap()))
+			}
+		}
+		p.Gate = rapid.IntRange(0, 9).Draw(t, "gate") == 0
+		return p
+	}
+	n := rapid.IntRange(3, 16).Draw(t, "nsteps")
+	for i := 0; i < n; i++ {
+		st := c07Step{AtMs: gap()}
 		st.Op = rapid.SampledFrom([]string{"req", "req", "req", "req", "req", "pause", "pause", "resume", "stop", "redeploy", "rollout-deploy", "rollout-set", "rollout-stop"}).Draw(t, "op")
 		switch st.Op {
 		case "req":
-			st.Kind = rapid.SampledFrom([]string{"plain", "plain", "cookie", "cookie", "post", "health-get", "health-post", "health-lookalike"}).Draw(t, "kind")
+			st = c07GenReq(t, st.AtMs)
 		case "pause":
 			st.MaxPauseMs = rapid.SampledFrom([]int{1, 100, 101, 500, 5000}).Draw(t, "max-pause")
 		case "stop":
